@@ -28,8 +28,14 @@ NameAny == {35, 37, 58, 59, 63, 94, 123, 124, 125, 126} \cup (128..255)
 NameByte == NameAcc \cup NameAny
 Hex == Digit \cup (65..70) \cup (97..102)
 HexVal(c) == IF c \in Digit THEN c - 48 ELSE IF c \in 65..70 THEN c - 55 ELSE c - 87
+PunctNames == [c \in 33..126 |->
+    CASE c = 33 -> "!" [] c = 34 -> "dquote" [] c = 35 -> "#" [] c = 36 -> "$" [] c = 37 -> "%" [] c = 38 -> "&" [] c = 39 -> "quote" [] c = 40 -> "("
+      [] c = 41 -> ")" [] c = 42 -> "*" [] c = 43 -> "+" [] c = 44 -> "," [] c = 45 -> "-" [] c = 46 -> "." [] c = 47 -> "/" [] c = 58 -> ":"
+      [] c = 59 -> ";" [] c = 60 -> "<" [] c = 61 -> "=" [] c = 62 -> ">" [] c = 63 -> "?" [] c = 64 -> "@" [] c = 91 -> "[" [] c = 92 -> "backslash"
+      [] c = 93 -> "]" [] c = 94 -> "^" [] c = 95 -> "_" [] c = 96 -> "`" [] c = 123 -> "{" [] c = 124 -> "|" [] c = 125 -> "}" [] c = 126 -> "~"
+      [] OTHER -> "?"]
 Cls(c) == CASE c = -1 -> "EOF" [] c \in Digit -> "digit" [] c \in Letter -> "letter" [] c = 32 -> "space"
-            [] c < 32 \/ c = 127 -> "control" [] c >= 128 -> "nonascii" [] OTHER -> "punct"
+            [] c < 32 \/ c = 127 -> "control" [] c >= 128 -> "nonascii" [] OTHER -> PunctNames[c]
 
 Ok(i, v, t) == [ok |-> TRUE, ab |-> FALSE, i |-> i, at |-> "", t |-> t, v |-> v]
 Fail(i, at) == [ok |-> FALSE, ab |-> FALSE, i |-> i, at |-> at, t |-> FALSE, v |-> <<>>]
@@ -68,7 +74,12 @@ Quoted(b, i, q, acc, t) ==
     LET c == At(b, i) IN
     IF c = -1 THEN Fail(i, "string")                                        \* no closing quote
     ELSE IF c = q THEN Ok(i + 1, acc, t)
-    ELSE IF c # 92 THEN Quoted(b, i + 1, q, Append(acc, c), t \/ c < 32 \/ c = 127)   \* ALLOW: raw control characters
+    ELSE IF c # 92 /\ c < 128 THEN Quoted(b, i + 1, q, Append(acc, c), t \/ c < 32 \/ c = 127)   \* ALLOW: raw control characters
+    ELSE IF c # 92 THEN
+         \* UTF-8 text is kept byte for byte.  ALLOW: bytes that are not UTF-8 (the printer writes U+FFFD for them)
+         LET n == IF c \in 194..223 THEN 1 ELSE IF c \in 224..239 THEN 2 ELSE IF c \in 240..244 THEN 3 ELSE 0
+             good == n > 0 /\ \A j \in 1..n : At(b, i + j) \in 128..191 IN
+         IF good THEN Quoted(b, i + n + 1, q, acc \o SubSeq(b, i, i + n), t) ELSE Quoted(b, i + 1, q, Append(acc, c), TRUE)
     ELSE LET e == At(b, i + 1) IN
          CASE e = -1 -> Fail(i + 1, "escape")                               \* unterminated escape
            [] e = 98 -> Quoted(b, i + 2, q, Append(acc, 8), t)
@@ -228,13 +239,15 @@ Expr(b, i0, items, t) ==
              c == At(b, j) IN
          IF c \in {-1, 41, 93, 44} THEN Ok(j, its, t \/ o.t)
          ELSE LET sym == {k \in 1..Len(SymOps) : StartsWith(b, j, SymOps[k])}
-                  wrd == {k \in 1..Len(WordOps) : Word(b, j) = WordOps[k]} IN
+                  wrd == {k \in 1..Len(WordOps) : StartsWith(b, j, WordOps[k])} IN
               IF sym # {} THEN
                    LET k == MinIn(sym) e == j + Len(SymOps[k]) IN
                    \* ALLOW: a symbolic operator directly followed by another operator character (e.g. "<-1", "==-1", "===")
                    Expr(b, e, Append(its, [k |-> "op", o |-> SymNames[k]]), t \/ o.t \/ At(b, e) \in {45, 61, 60, 62, 38, 124, 126, 33, 43, 42, 47})
               ELSE IF wrd # {} THEN
-                   LET k == MinIn(wrd) IN Expr(b, j + Len(WordOps[k]), Append(its, [k |-> "op", o |-> WordNames[k]]), t \/ o.t \/ j = o.i)
+                   \* ALLOW: a word operator that is not set off by blanks ("1in[1]", "hasfalse", "has!false")
+                   LET k == MinIn(wrd) e == j + Len(WordOps[k]) IN
+                   Expr(b, e, Append(its, [k |-> "op", o |-> WordNames[k]]), t \/ o.t \/ j = o.i \/ At(b, e) # 32)
               ELSE Fail(j, "operator")
 
 \* number constant: -? digit+ (. digit*)? ([eE] [+-]? digit+)? .  ALLOW: "1." , leading zeros, long literals; floats are kept by kind only
@@ -242,7 +255,8 @@ Number(b, i) ==
     LET neg == At(b, i) = 45
         s == IF neg THEN i + 1 ELSE i
         e == Span(b, s, Digit) IN
-    IF e = s THEN Fail(s, "number")
+    IF e = s THEN (IF At(b, s) = 46 /\ At(b, s + 1) \in Digit THEN Abort(s, "number")      \* ALLOW: "-.5" (no digit before the point)
+                   ELSE Fail(s, "number"))
     ELSE LET frac == At(b, e) = 46
              fe == IF frac THEN Span(b, e + 1, Digit) ELSE e
              ex == At(b, fe) \in {101, 69}
